@@ -10,7 +10,7 @@ from numba_scfg.core.datastructures.basic_block import (
 
 from . import gen_graphs as gg
 from . import models as M
-from .core import debug_logging, exc_sig, library_raised, norm
+from .core import debug_logging, exc_sig, h64, library_raised, norm
 
 STAGES3 = ("closed", "loop", "branch")
 
@@ -18,6 +18,8 @@ STAGES3 = ("closed", "loop", "branch")
 def build(g, stage, payload="plain", trees=None):
     """Returns (scfg, originals, exc).  exc is the library's exception if a
     stage driver raised."""
+    if stage == "reload" and payload == "ast":
+        stage = "levelwise"  # AST payloads cannot be written out (no registry entry)
     scfg = M.mk_scfg(g, payload, trees)
     originals = dict(scfg.graph)
     if payload == "ast":
@@ -27,9 +29,9 @@ def build(g, stage, payload="plain", trees=None):
         if len(g) % 4 == 3 and len(g) <= 12:
             # a quarter of the (small) graphs runs under the configuration "debug logging on"
             with debug_logging():
-                M.apply_stage(scfg, stage)
+                scfg = M.apply_stage(scfg, stage)
         else:
-            M.apply_stage(scfg, stage)
+            scfg = M.apply_stage(scfg, stage)
     except RecursionError as e:
         return scfg, originals, e
     except Exception as e:  # the library raised: C02's business
@@ -46,7 +48,9 @@ def replay_obj(g, stage, payload="plain"):
 def stages_for(g, origin):
     # restructure() is the fourth public driver; alternate it in
     # and, for the other half, the same pipeline driven level by level through the drivers of the sub-graphs
-    return STAGES3 + (("restructure",) if (len(g) % 2 == 0) else ("levelwise",))
+    # the same pipeline driven level by level through the drivers of the sub-graphs, with a write/read between the
+    # stages, or re-entered (restructure() after restructure_loop()) - one of the four per graph
+    return STAGES3 + (("restructure", "levelwise", "reload", "reentrant")[h64(gg.gkey(g)) % 4],)
 
 
 def has_synth_branch(flat):
